@@ -16,7 +16,6 @@ code -> spec : seeded random longer command lists (more exit statuses, signals, 
 """
 import json
 import os
-import random
 import re
 import shutil
 import stat
@@ -390,7 +389,7 @@ def run_c19(ctx):
     n_exec = 0
 
     # ---- spec -> code: command lists
-    run_cfgs = [('run-direct', _consts(ctx.pick(2, 3), [0, 1, 3], ctx.pick([0, 1], [0, 1, 2]), ['direct'], ['run'], 'NL_None')),
+    run_cfgs = [('run-direct', _consts(3, [0, 1, 3], ctx.pick([0, 1], [0, 1, 2]), ['direct'], ['run'], 'NL_None')),
                 ('run-codes', _consts(ctx.pick(3, 4), [0, 1, 3], [1], ['direct'], ['run'], 'NL_None')),
                 ('run-sched', _consts(3, [0, 1, 3], ctx.pick([1], [0, 1]), ['sched'], ['run'], 'NL_None'))]
     if not ctx.quick:
@@ -464,7 +463,7 @@ def run_c19(ctx):
     # ---- code -> spec
     rng = ctx.rng
     records = []
-    n_run = ctx.pick(800, 20000)
+    n_run = ctx.pick(1500, 20000)
     codes = [0, 0, 0, 0, 1, 2, 3, 127, 255, -9, -15]
     cases = []
     for _ in range(n_run):
@@ -477,7 +476,7 @@ def run_c19(ctx):
                 cmds.append(dict(exit=rng.choice(codes), nout=rng.randint(0, 3), nerr=rng.randint(0, 3), how=''))
         cases.append(dict(op='run', mode='sched' if rng.random() < 0.3 else 'direct', cmds=cmds))
     atoms = list(ATOMS)
-    n_names = ctx.pick(400, 6000)
+    n_names = ctx.pick(600, 6000)
     for _ in range(n_names):
         names = []
         for _j in range(rng.randint(1, 4)):
